@@ -464,6 +464,30 @@ pub fn impl_answer(case: &Case) -> String {
                     vars.dedup();
                     funcs.sort();
                     funcs.dedup();
+                    // the membership accessors answer for exactly the names the listings hold; a name
+                    // only `has_variable` / `has_function` knows is reported as if it were listed,
+                    // one they deny although listed shows up under a marker name
+                    {
+                        let mut probes: Vec<String> = vec!["@result".into(), "@result1".into(), "@result2".into(), "@x".into(), "@in".into(), "@not_strictly_false".into(), "_+_".into(), "nope_never_mentioned".into()];
+                        probes.extend(vars.iter().cloned());
+                        probes.extend(funcs.iter().cloned());
+                        for pname in probes {
+                            match (refs.has_variable(&pname), vars.contains(&pname)) {
+                                (true, false) => vars.push(pname.clone()),
+                                (false, true) => vars.push(format!("@has_variable-denies-{pname}")),
+                                _ => {}
+                            }
+                            match (refs.has_function(&pname), funcs.contains(&pname)) {
+                                (true, false) => funcs.push(pname.clone()),
+                                (false, true) => funcs.push(format!("@has_function-denies-{pname}")),
+                                _ => {}
+                            }
+                        }
+                        vars.sort();
+                        vars.dedup();
+                        funcs.sort();
+                        funcs.dedup();
+                    }
                     let names = |v: &[String]| v.iter().map(|n| format!(" {}", crate::sx::hex(n.as_bytes()))).collect::<String>();
                     match &spec {
                         None => format!("(refs (vars{}) (funcs{}))", names(&vars), names(&funcs)),
